@@ -216,7 +216,9 @@ def reqConnectProbeLoop : Nat → Conn → R
           | some uid => txStateRequestComplete cfg uid c
           | none => (c, .error)
         else
-          ({ c with inn := { c.inn with status := STREAM_TUNNEL }, out := { c.out with status := STREAM_TUNNEL } }, .ok)
+          -- a response direction in ERROR or STOP stays there (repaired in /repo: it used to be overwritten with TUNNEL)
+          let outSt := if c.out.status == STREAM_ERROR || c.out.status == STREAM_STOP then c.out.status else STREAM_TUNNEL
+          ({ c with inn := { c.inn with status := STREAM_TUNNEL }, out := { c.out with status := outSt } }, .ok)
     else
       match c.inn.copyByte with
       | none => (c, .dataBuffer)
